@@ -501,6 +501,79 @@ impl Ctx {
     }
 }
 
+const CASE_POOL: &[&str] = &[
+    "B.TXT", "a.txt", "c.Txt", "d/E.TXT", "d/f.txt", "D/g.TXT", "x", "README", "readme", "Readme.MD", "src/Main.RS",
+    "src/lib.rs", "SRC/x.rs", "Makefile", "makefile.am", "d/README",
+];
+const CASE_ATTR_LINES: &[&str] = &[
+    "*.TXT marked", "*.txt -low", "*.txt low", "README doc=yes", "readme doc=no", "d/* indir", "D/* -indir", "*.RS marked",
+    "*.rs lang=rust", "src/* marked", "SRC/* low", "[Mm]akefile* marked", "*.MD doc", "* !low", "*.Txt marked=2",
+];
+const CASE_ATTRS: &[&str] = &[
+    "marked", "!marked", "-marked", "low", "-low", "!low", "doc", "doc=yes", "!doc", "indir", "!indir", "-indir",
+    "lang=rust", "marked -low", "!marked !low", "marked=2",
+];
+
+fn gen_case_scenario(r: &mut Rng) -> Scenario {
+    let mut scn = Scenario::default();
+    for _ in 0..5 + r.usize(9) {
+        let p = r.pick(CASE_POOL).as_bytes().to_vec();
+        let conflict = scn.paths.iter().any(|q| {
+            q == &p
+                || (q.len() > p.len() && q.starts_with(&p) && q[p.len()] == b'/')
+                || (p.len() > q.len() && p.starts_with(q) && p[q.len()] == b'/')
+        });
+        if !conflict {
+            scn.paths.push(p);
+        }
+    }
+    let mut c = Vec::new();
+    for _ in 0..2 + r.usize(4) {
+        c.extend_from_slice(r.pick(CASE_ATTR_LINES).as_bytes());
+        c.push(b'\n');
+    }
+    scn.attr_files.push((vec![], c));
+    scn
+}
+
+/// `:(icase,attr:..)`, `:(icase,exclude,attr:..)`, sometimes without icase or without attr
+fn gen_case_spec(r: &mut Rng, paths: &[Vec<u8>], later: bool) -> Vec<u8> {
+    let mut kws: Vec<String> = Vec::new();
+    if r.chance(5, 6) {
+        kws.push("icase".into());
+    }
+    if later && r.chance(1, 2) {
+        kws.push("exclude".into());
+    }
+    if r.chance(1, 6) {
+        kws.push("glob".into());
+    }
+    if r.chance(5, 6) {
+        kws.push(format!("attr:{}", r.pick(CASE_ATTRS)));
+    }
+    r.shuffle(&mut kws);
+    let mut s = Vec::new();
+    if !kws.is_empty() {
+        s.extend_from_slice(format!(":({})", kws.join(",")).as_bytes());
+    }
+    // no directory prefix in the path part (git 2.39 cuts the common prefix off before the attribute lookup)
+    match r.below(6) {
+        0 | 1 => s.push(b'*'),
+        2 => s.extend_from_slice(*r.pick(&[&b"*.txt"[..], b"*.TXT", b"*.rs", b"*e*", b"[a-z]*"])),
+        3 => {}
+        _ => {
+            let mut t = r.pick(paths).clone();
+            for b in t.iter_mut() {
+                if r.chance(1, 3) {
+                    *b = if b.is_ascii_lowercase() { b.to_ascii_uppercase() } else { b.to_ascii_lowercase() };
+                }
+            }
+            s.extend_from_slice(&t);
+        }
+    }
+    s
+}
+
 /// index paths for the scenarios with a prefix: directories that differ in case only
 const PREFIX_POOL: &[&str] = &[
     "x", "y", "X", "bar", "foo/bar", "FOO/bar", "Foo/bar", "foo/x", "FOO/x", "foo/sub/bar", "foo/SUB/bar", "FOO/sub/bar",
@@ -1070,6 +1143,23 @@ fn corpus() -> Vec<(&'static str, Scenario, Vec<Vec<&'static str>>)> {
             vec!["/"], vec![":(attr:lang\tdoc)x"], vec![":(attr: )x"], vec![":(attr: ,attr:lang)x"], vec![":(attr:lang=c\\\\,d)x"], vec![":(attr:lang=c\\)x"],
             vec![":(attr:lang=c\\,d -doc  !x,icase)A/"], vec![":(attr:la\\,ng)x"], vec![":(to\\,p)x"], vec!["a//b/../x/"], vec![":(attr:lang=c)./a/../a/"],
         ],
+    ),
+    (
+        // `icase` folds the PATHSPEC only: the patterns of .gitattributes stay case-sensitive (the attribute
+        // callback of pattern_matching_relative_path is handed Case::Sensitive)
+        "corpus:icase-attr",
+        Scenario {
+            paths: paths(&["B.TXT", "a.txt", "c.Txt", "d/E.TXT", "d/f.txt", "x", "README", "readme", "D/g.TXT"]),
+            attr_files: vec![(vec![], b"*.TXT marked\n*.txt -low\nREADME doc=yes\nd/* indir\n".to_vec())],
+        },
+        vec![
+            vec![":(icase,attr:marked)*"], vec![":(icase,attr:!marked)*"], vec![":(icase,exclude,attr:marked)*", "*"],
+            vec![":(icase,attr:-low)*"], vec![":(icase,attr:!low)*.TXT"], vec![":(icase,attr:marked)b.txt"],
+            vec![":(icase,attr:marked)A.TXT"], vec![":(icase,attr:doc=yes)readme"], vec![":(icase,attr:!doc)README"],
+            vec![":(icase,attr:indir)*"], vec![":(icase,attr:!indir)*"], vec![":(icase,exclude,attr:indir)*", ":(icase)*.txt"],
+            vec![":(icase,glob,attr:marked)**"], vec![":(icase,attr:marked -low)*"], vec![":(attr:marked)*"],
+            vec![":(icase,exclude,attr:!marked)*", "*"], vec![":(icase,attr:marked)", ":!x"],
+        ],
     )]
 }
 
@@ -1139,6 +1229,24 @@ fn main() {
         }
         let _ = std::fs::remove_dir_all(&repo.root);
     }
+    // `:(icase,attr:..)` over attribute PATTERNS that differ in case from the index paths
+    let n = args.budget(8, 120);
+    for _ in 0..n {
+        let scn = gen_case_scenario(&mut r);
+        let repo = cx.repo(&scn);
+        cx.rep.bucket("scenario:icase-attr");
+        for _ in 0..8 {
+            let ns = if r.chance(2, 3) { 1 } else { 2 };
+            let specs: Vec<Vec<u8>> = (0..ns).map(|i| gen_case_spec(&mut r, &repo.paths, i > 0)).collect();
+            for s in &specs {
+                if parsed.insert(s.clone()) {
+                    cx.parse_case(s);
+                }
+            }
+            cx.select_case(&repo, &specs, None);
+        }
+        let _ = std::fs::remove_dir_all(&repo.root);
+    }
     // pathspecs given from a sub-directory (a non-empty prefix)
     {
         let paths = |ps: &[&str]| ps.iter().map(|p| p.as_bytes().to_vec()).collect::<Vec<_>>();
@@ -1180,7 +1288,7 @@ fn main() {
         }
         let _ = std::fs::remove_dir_all(&repo.root);
     }
-    let n = args.budget(25, 250);
+    let n = args.budget(16, 250);
     for _ in 0..n {
         let (scn, cwd) = gen_prefix_scenario(&mut r);
         let repo = cx.repo(&scn);
